@@ -38,14 +38,16 @@ fn tamper(r: &mut Rng, p: &Pwpi) -> Pwpi {
 }
 
 fn conditional(e: &mut Emitter, r: &mut Rng, thorough: bool) {
-    let n = if thorough { 4 } else { 1 };
+    let n = if thorough { 4 } else { 2 };
     let mut made = 0;
     let mut tries = 0;
     while made < n && tries < 6 * n {
         tries += 1;
         // two different circuits with the SAME common data: same program shape, different constant
         let nops = r.range(8, 40) as usize;
-        let mut prog0 = gen_prog(r, nops, r.clone().below(4));
+        // every second inner circuit uses lookup tables (the opening set then has lookup_zs / next_lookup_zs)
+        let feat = if made % 2 == 0 { r.clone().below(4) | 1 } else { r.clone().below(4) & !1 };
+        let mut prog0 = gen_prog(r, nops, feat);
         prog0.ops.push(Op::Const(11));
         let mut prog1 = prog0.clone();
         *prog1.ops.last_mut().unwrap() = Op::Const(12);
@@ -221,6 +223,38 @@ fn cyclic(e: &mut Emitter, r: &mut Rng, thorough: bool) {
                 pw.set_proof_with_pis_target(&inner, &proof)?;
                 pw.set_verifier_data_target(&vdt, &data.verifier_only)?;
                 proof = data.prove(pw)?;
+            }
+            // foreign verifier data inside the chain: a base proof made under ALTERED verifier data (one cap
+            // element, or one digest element, changed) verifies as a proof of this circuit but fails the
+            // verifier-data check; the chain must not be extendable from it under the genuine data
+            for which in 0..2 {
+                let mut bad_vd = data.verifier_only.clone();
+                if which == 0 { bad_vd.constants_sigmas_cap.0[0].elements[1] += F::ONE; } else { bad_vd.circuit_digest.elements[2] += F::ONE; }
+                let what = if which == 0 { "one cap element altered, digest kept" } else { "one digest element altered, cap kept" };
+                e.stage(&format!("impl: cyclic base proof under altered verifier data ({what})"));
+                let made = std::panic::catch_unwind(std::panic::AssertUnwindSafe(|| -> anyhow::Result<Pwpi> {
+                    let mut pw = PartialWitness::new();
+                    pw.set_bool_target(condition, false)?;
+                    pw.set_proof_with_pis_target::<C, 2>(&inner, &cyclic_base_proof(&common_data, &bad_vd, init.into_iter().enumerate().collect()))?;
+                    pw.set_verifier_data_target(&vdt, &bad_vd)?;
+                    data.prove(pw)
+                }));
+                let Ok(Ok(p_bad)) = made else { e.count(&format!("cyclic: no base proof under altered verifier data ({what})")); continue; };
+                let verifies = data.verify(p_bad.clone()).is_ok();
+                let vd_ok = check_cyclic_proof_verifier_data(&p_bad, &data.verifier_only, &data.common).is_ok();
+                e.count(&format!("cyclic: base proof under altered vd ({what}): verifies={verifies} vd-check-passes={vd_ok}"));
+                if vd_ok { e.oracle_failures.push(format!("check_cyclic_proof_verifier_data accepts a proof made under altered verifier data ({what})")); }
+                let mut pw = PartialWitness::new();
+                pw.set_bool_target(condition, true)?;
+                pw.set_proof_with_pis_target(&inner, &p_bad)?;
+                pw.set_verifier_data_target(&vdt, &data.verifier_only)?;
+                e.stage(&format!("impl: extending the cyclic chain from a proof with foreign verifier data ({what})"));
+                let ext = std::panic::catch_unwind(std::panic::AssertUnwindSafe(|| data.prove(pw).and_then(|p| { data.verify(p.clone())?; Ok(p) })));
+                if let Ok(Ok(p2)) = ext {
+                    let passes = check_cyclic_proof_verifier_data(&p2, &data.verifier_only, &data.common).is_ok();
+                    e.oracle_failures.push(format!("cyclic chain EXTENDED from an inner proof that carries foreign verifier data ({what}); the new proof verifies and its verifier-data check passes: {passes}"));
+                }
+                e.count("cyclic: extension from foreign verifier data refused");
             }
             // a tampered inner proof must not extend the chain
             let mut pw = PartialWitness::new();
